@@ -221,9 +221,6 @@ sc_array_resize (sc_array_t * array, size_t new_count)
 #ifndef SC_ENABLE_USE_REALLOC
   char               *ptr;
 #endif
-#ifdef SC_ENABLE_DEBUG
-  size_t              i;
-#endif
 
   if (!SC_ARRAY_IS_OWNER (array)) {
     /* *INDENT-OFF* HORRIBLE indent bug */
@@ -260,8 +257,9 @@ sc_array_resize (sc_array_t * array, size_t new_count)
     if (newoffs < oldoffs) {
       memset (array->array + newoffs, -1, oldoffs - newoffs);
     }
-    for (i = oldoffs; i < newoffs; ++i) {
-      SC_ASSERT (array->array[i] == (char) -1);
+    else if (newoffs > oldoffs) {
+      /* elements dropped by pop or rewind may have left data here */
+      memset (array->array + oldoffs, -1, newoffs - oldoffs);
     }
 #endif
     /* we keep the current allocation */
